@@ -9,6 +9,9 @@ Perm, which C01 explores).  Every sub-check enumerates a stated finite space com
   big      length 4: 0/1 (thorough also 24/25) shaded cells, thorough also every vincular and
            covincular set and bivincular one column x one row  x  texts of length 4..6;
            the seven mesh patterns used in the code base (lengths 3, 4, 6) x texts up to length 7/8
+  dense    texts with very many classical occurrences: all layered permutations and their reverses
+           of length 7..10 (thorough ..11) x 145 patterns (many shadings per underlying pattern,
+           queried one after the other on the same text object)
   biv      every BivincularPatt / VincularPatt / CovincularPatt of length <= 3 (all adjacency
            sets) against the adjacency oracle, which never looks at shadings
   bivreq   get_adjacent_requirements describes the same pattern; argument order/iterators
@@ -260,6 +263,48 @@ MIXED_POOL = [
 ]
 
 _FAM = {}      # name -> list of (spec, obj)   (built in the parent before forking)
+_TEXTS = {}    # name -> list of texts (for families of texts that are not a whole S_n)
+
+
+def compositions(n):
+    if n == 0:
+        yield ()
+        return
+    for first in range(1, n + 1):
+        for rest in compositions(n - first):
+            yield (first,) + rest
+
+
+def layered_texts(lengths):
+    """Every layered permutation (direct sum of decreasing blocks, one per composition of n) and
+    its reverse (skew sum of increasing blocks): the texts with the most occurrences of monotone
+    patterns; identity and reverse identity are among them."""
+    out, seen = [], set()
+    for n in lengths:
+        for comp in compositions(n):
+            t, base = [], 0
+            for c in comp:
+                t.extend(range(base + c - 1, base - 1, -1))
+                base += c
+            for cand in (tuple(t), tuple(reversed(t))):
+                if cand not in seen:
+                    seen.add(cand)
+                    out.append(cand)
+    return out
+
+
+def fam_dense():
+    """Many different shadings per underlying pattern, queried one after the other on the same text."""
+    out = fam_mesh_all(1)
+    for p in R.perms(2):
+        out += [mesh_spec(p, sh) for sh in X.shadings_by_size(2, (0, 1, 8, 9))]
+    for p in ((0, 1, 2), (2, 1, 0)):
+        out += [mesh_spec(p, sh) for sh in X.shadings_by_size(3, (0, 1, 15, 16))]
+        out += [mesh_spec(p, sh) for q, sh in CODEBASE if q == p]
+        for c in range(4):
+            out.append(("vinc", p, (c,), ()))
+            out.append(("covinc", p, (), (c,)))
+    return out
 
 
 def build_family(name, specs, part):
@@ -289,7 +334,8 @@ def shard_family(shard):
     lib = _lib()
     part = Partial()
     fam = _FAM[name]
-    for t in R.perms(n)[lo:hi]:
+    texts = _TEXTS[n][lo:hi] if isinstance(n, str) else R.perms(n)[lo:hi]
+    for t in texts:
         T = lib.Perm(t)
         tab = Tables(t)
         for spec, obj in fam:
@@ -502,6 +548,21 @@ def run(ctx, only=None):
                                               "(lengths 3, 4, 6)" % len(_FAM["codebase"]),
                                   "texts": "length 3..%d" % top}
 
+    if want("dense"):
+        build_family("dense", fam_dense(), ctx)
+        lens = (7, 8, 9, 10) if quick else (7, 8, 9, 10, 11)
+        _TEXTS["layered"] = layered_texts(lens)
+        nt = len(_TEXTS["layered"])
+        for lo in range(0, nt, 8):
+            jobs.append((shard_family, ("dense", "dense", "layered", lo, min(nt, lo + 8), False)))
+        ctx.bounds["dense"] = {
+            "texts": "all %d layered permutations and reverses of layered permutations of length %s "
+                     "(up to C(n,k) classical occurrences of a monotone pattern)" % (nt, "/".join(map(str, lens))),
+            "patterns": "%d: all mesh patterns of length <= 1, length 2 with 0/1/8/9 cells, 012 and 210 with "
+                        "0/1/15/16 cells, their code-base shadings and single vincular/covincular requirements; "
+                        "all shadings of one underlying pattern are queried one after the other on the same "
+                        "text object" % len(_FAM["dense"])}
+
     if want("biv"):
         build_family("biv", fam_biv(3), ctx)
         top = 6 if quick else 7
@@ -550,7 +611,7 @@ def _dispatch(shard):
 def replay(ctx, rec):
     lib = _lib()
     sub, case = rec["sub"], rec["case"]
-    if sub in ("mesh", "mesh3", "mesh3all", "big", "codebase", "biv", "derived"):
+    if sub in ("mesh", "mesh3", "mesh3all", "big", "codebase", "dense", "biv", "derived"):
         spec = case_spec(case)
         t = tuple(case["text"])
         try:
